@@ -166,9 +166,9 @@ Definition quo_raw (p : N) (x y : dec) : dec :=
     let dividend2 := dividend1 * pow10 adjexp in
     let q := dividend2 / divisor in
     let r := dividend2 mod divisor in
-    let q' :=
-      if r =? 0 then q
-      else match (2 * r) ?= divisor with Lt => q | _ => q + 1 end in   (* half-up *)
+    (* if rem != 0 { half := (2*rem).Cmp(divisor); RoundHalfUp adds one when half >= 0 };
+       a zero remainder compares Lt as well *)
+    let q' := match (2 * r) ?= divisor with Lt => q | _ => q + 1 end in
     mkDec ng q' (shift - adj - Z.of_N adjexp).
 
 (* internal.Context.Quo *)
